@@ -35,6 +35,8 @@ pub struct ScnOut {
     pub workers: usize,
     pub entries: usize,
     pub stats: Stats,
+    /// final contents (key, value) of the map
+    pub final_ents: Vec<(Key, u64)>,
 }
 
 fn new_ctx(prop: &str, salt: u64) -> Ctx {
@@ -190,7 +192,7 @@ fn exec_scn_typed<P: SimPrefix>(scn: &ThreadScn, engine: Engine) -> Result<ScnOu
     }
     drop(real);
     drop(w);
-    Ok(ScnOut { workers: nworkers, entries: t1.ents.len(), stats })
+    Ok(ScnOut { workers: nworkers, entries: t1.ents.len(), stats, final_ents: core(&t1.ents) })
 }
 
 /// `sim miri --seed S --from A --to B`: scenarios A..B on real threads (run this under Miri)
@@ -224,11 +226,19 @@ pub fn cmd_std(opts: &BTreeMap<String, String>) -> i32 {
     let (from, to) = (list.first().copied().unwrap_or(0), list.last().copied().unwrap_or(0));
     for idx in list.iter().copied() {
         let scn = gen_thread_scn(seed, idx, small);
+        let seq = exec_scn(&scn, Engine::Seq).ok().map(|o| o.final_ents);
         match exec_scn(&scn, Engine::Std) {
             Ok(o) => {
                 workers += o.workers;
                 if o.workers >= 2 && o.entries >= 2 {
                     multi += 1;
+                }
+                if let Some(s) = &seq {
+                    if *s != o.final_ents {
+                        println!("threads(std): violation sig=C14:threads:concurrent-differs-from-sequential-run scenario={idx} :: workers on threads leave {:?}, the same workers one after the other leave {:?}", o.final_ents, s);
+                        println!("THREADS-VIOLATION seed={seed} scenario={idx} sig=C14:threads:concurrent-differs-from-sequential-run");
+                        return 1;
+                    }
                 }
             }
             Err(v) => {
@@ -324,8 +334,12 @@ pub fn cmd_threads(opts: &BTreeMap<String, String>) -> i32 {
                         let scn = Arc::new(gen_thread_scn(seed, idx, false));
                         // sequential pre-pass: scenarios that end up with a single worker have
                         // no interleaving to explore (and PCT refuses them)
+                        let mut seq_final: Option<Vec<(Key, u64)>> = None;
                         let multi = match exec_scn(&scn, Engine::Seq) {
-                            Ok(o) => o.workers >= 2,
+                            Ok(o) => {
+                                seq_final = Some(o.final_ents.clone());
+                                o.workers >= 2
+                            }
                             Err(v) => {
                                 res.push((idx, 0, false, Some((v, String::new(), (*scn).clone())), Stats::default()));
                                 break;
@@ -352,8 +366,16 @@ pub fn cmd_threads(opts: &BTreeMap<String, String>) -> i32 {
                             cfg.failure_persistence = FailurePersistence::File(Some(dir.clone().into()));
                             cfg.silence_warnings = true;
                             let sseed = crate::rng::mix64(seed ^ idx.wrapping_mul(0x9E37_79B9));
+                            let seq2 = seq_final.clone();
+                            let f3 = failed.clone();
                             let body = move || match exec_scn(&scn2, Engine::Shuttle) {
                                 Ok(o) => {
+                                    if let Some(s) = &seq2 {
+                                        if *s != o.final_ents {
+                                            *f3.lock().unwrap() = Some(Violation { property: "C14".into(), sig: "C14:threads:concurrent-differs-from-sequential-run".into(), step: 0, detail: format!("this schedule leaves {:?}, the same workers one after the other leave {:?}", o.final_ents, s) });
+                                            panic!("violation");
+                                        }
+                                    }
                                     let mut g = st2.lock().unwrap();
                                     if g.steps == 0 {
                                         g.merge(&o.stats);
